@@ -31,7 +31,7 @@ RULE = ("plans = ledger x provider behaviour x spendable lies x payable lists (f
         "schedule x crash points; non-trivial iff a lie or storage/provider fault was in effect when a transaction was "
         "validated, a split pool had a remainder, or funds were insufficient")
 FAULT_KINDS = ["spendable_lie_amount", "spendable_lie_script", "spendable_lie_index", "spendable_lie_txid", "provider_fail",
-               "provider_none", "provider_other_tx", "provider_tampered_tx", "source_returns_stale_object_on_miss", "fs_open_w_error", "fs_open_r_error",
+               "provider_none", "provider_other_tx", "provider_tampered_tx", "source_returns_stale_object_on_miss", "provider_inconsistent_answers", "fs_open_w_error", "fs_open_r_error",
                "fs_write_enospc", "fs_read_eio", "fs_bit_flip", "fs_misdirected_write", "fs_missing_dir", "crash_restart",
                "crash_torn_file", "crash_lost_file", "crash_empty_file"]
 PROBES = ["split_remainder_nonzero", "insufficient_funds_refused", "less_than_one_satoshi_each_refused", "all_outputs_fixed",
@@ -167,7 +167,7 @@ def gen_plan(rng, tier, index, config=None):
                                                                   (r.between(0, 21 * 10**14), 4)])})
         elif op == "provider":
             steps.append({"op": "provider", "p": r.below(2), "mode": r.weighted([("honest", 3), ("fail", 2), ("none", 2),
-                                                                                 ("other", 2), ("tamper", 2)])})
+                                                                                 ("other", 2), ("tamper", 2), ("tamper_after_first", 1)])})
         elif op == "fs_fault":
             k = r.weighted([("open_w", 2), ("open_r", 2), ("enospc_after", 3), ("eio_after", 2), ("flip", 3), ("misdirect", 2),
                             ("missing_dir", 1)])
@@ -200,9 +200,16 @@ def gen_plan(rng, tier, index, config=None):
                                                                              "witness": []}],
                                                     "outs": [{"value": _amount(r), "key": r.below(len(keys))} for _ in range(k)], "locktime": 0}})
         ntx += 1
-        steps.append({"op": "provider", "p": 0, "mode": "tamper"})
-        steps.append({"op": "provider", "p": 1, "mode": "tamper"})
-        steps.append({"op": "build", "id": "x%d" % nbuilt, "spend": [{"tx": t, "idx": 0, "lie": {"kind": "amount", "delta": 1000}, "form": "obj"}],
+        two = k >= 2 and r.chance(0.5)
+        md = "tamper_after_first" if two else "tamper"
+        steps.append({"op": "provider", "p": 0, "mode": md})
+        steps.append({"op": "provider", "p": 1, "mode": md})
+        spend = [{"tx": t, "idx": 0, "lie": {"kind": "amount", "delta": 1000}, "form": "obj"}]
+        if two:
+            # two inputs from the same source, the doctored one asked about second: a source that answers the second
+            # request for the same transaction differently
+            spend = [{"tx": t, "idx": 1, "lie": None, "form": "obj"}] + spend
+        steps.append({"op": "build", "id": "x%d" % nbuilt, "spend": spend,
                       "pay": [[r.below(len(keys)), None, "bare"]], "fee": r.pick([0, 1000]), "lock_time": 0, "version": 1})
         steps.append({"op": "validate", "tx": "x%d" % nbuilt, "db": r.pick(["raw", "raw", "txdb"])})
         nbuilt += 1
@@ -259,6 +266,7 @@ def execute(plan, ctx):
     W.ledger = {}       # id -> (model tx, bytes, txid)
     W.by_hash = {}
     W.providers = {0: "honest", 1: "honest"}
+    W.lookups_seen = {}
     W.db = None
     W.built = {}
     W.dirty = False     # any storage / provider fault so far in this run
@@ -306,6 +314,14 @@ def _provider(W, ctx, p):
             return None
         if ent is None:
             return None
+        if mode == "tamper_after_first":
+            # answers the first request for a transaction honestly and every later request for it with a doctored copy
+            seen = W.lookups_seen.get((p, key), 0)
+            W.lookups_seen[(p, key)] = seen + 1
+            if seen == 0:
+                return Tx.from_bin(ent[1])
+            mode = "tamper"
+            ctx.fault("provider_inconsistent_answers")
         if mode == "tamper":
             ctx.fault("provider_tampered_tx")
             m = copy.deepcopy(ent[0])
